@@ -30,7 +30,7 @@ RULE = ("one unit = one (volume, option set, variant): volumes (130,3,2) "
         "and flat option sets, no all-in-one counterpart); "
         "downscaling method {explicit, auto}; option sets {default, --flat --no-gzip, --no-gzip, "
         "--sharding 1,1,0, value mapping (--ignore-scaling --input-min "
-        "--input-max)}; downscaling {explicit, auto, average with "
+        "--input-max; --input-max alone)}; downscaling {explicit, auto, average with "
         "--outside-value}; menu = generate-info, generate-scales-info, "
         "volume-to-precomputed, compute-scales, all-in-one pyramid (own "
         "directory), prepare + convert-chunks (third directory), "
@@ -73,9 +73,11 @@ VOLUMES = {
 }
 METHODS = ("explicit", "auto", "average-outside")
 OPTSETS = {"default": [], "flat-nogzip": ["--flat", "--no-gzip"],
-           "nogzip": ["--no-gzip"], "sharded": [], "valuemap": []}
+           "nogzip": ["--no-gzip"], "sharded": [], "valuemap": [],
+           "valuemap-max": []}
 # value-mapping options given to every command that reads the volume
 VALUEMAP = ["--ignore-scaling", "--input-min", "10", "--input-max", "300"]
+VALUEMAP_MAX = ["--input-max", "300"]      # input-min left at its default
 
 
 def make_volume(path, v):
@@ -110,7 +112,8 @@ def commands(vol, optset, ws, mmap, method="explicit"):
         dsm = ["--downscaling-method", "average", "--outside-value", "200"]
     else:
         dsm = ["--downscaling-method", "majority" if seg else "stride"]
-    vm = VALUEMAP if optset == "valuemap" else []
+    vm = (VALUEMAP if optset == "valuemap" else
+          VALUEMAP_MAX if optset == "valuemap-max" else [])
     tcs = (["--target-chunk-size", str(v["tcs"])] if v.get("tcs") else [])
     cmds = {
         "gen-info": ("volume_to_precomputed",
@@ -366,7 +369,8 @@ def explore(col, vol, optset, mmap, depth, method="explicit"):
             # workflow
             v = VOLUMES[vol]
             if v["dtype"] == "uint8" and not v.get("slope") \
-                    and optset != "valuemap" and rp.ok and complete(a):
+                    and not optset.startswith("valuemap") and rp.ok \
+                    and complete(a):
                 _slices_equivalence(col, case0, ws, cmds, vol, optset, a)
         else:
             # sharded: the step-by-step pipeline alone must succeed
@@ -512,7 +516,7 @@ def units(tier):
                             VOLUMES[vol].get("segmentation") or mmap
                             or optset not in ("default", "nogzip")):
                         continue
-                    if optset == "valuemap" and (
+                    if optset.startswith("valuemap") and (
                             method != "explicit" or mmap
                             or VOLUMES[vol].get("segmentation")):
                         continue
